@@ -306,8 +306,8 @@ func familyVerify(t *testing.T) {
 				r.verifyOn(same, tk)
 				r.verifyOn(0, tk)
 			}
-			if sc%5 == 0 { // the textbook sequence: verify, revoke, verify at once, wait 25 h, verify
-				tk := r.mint("valid", 72*time.Hour, "")
+			if sc%5 == 0 { // the textbook sequence: verify, revoke, verify at once, wait 25 h, verify (every other time with a token that carries a jti)
+				tk := r.mint("valid", 72*time.Hour, []string{"", fmt.Sprintf("jti-textbook-%d", sc)}[(sc/5)%2])
 				r.verify(tk, false)
 				r.revoke(tk)
 				r.verify(tk, false)
